@@ -240,6 +240,7 @@ namespace sqf::parser::preprocessor
             bool allow_write;
             ::sqf::runtime::diagnostics::diag_info info_if;
             ::sqf::runtime::diagnostics::diag_info info_else;
+            bool parent_allow_write;
         };
         struct file_scope
         {
